@@ -2,6 +2,7 @@ package props
 
 import (
 	"github.com/Syuparn/pangaea/object"
+	"sort"
 )
 
 // BaseObjProps provides built-in props for BaseObj.
@@ -82,7 +83,16 @@ func compObjs(
 		return object.BuiltInFalse
 	}
 
-	for sym, pair1 := range *o1.Pairs {
+	// NOTE: compare in a fixed order (map iteration order is random
+	// and `==` of elements may be defined by users)
+	syms := make([]object.SymHash, 0, len(*o1.Pairs))
+	for sym := range *o1.Pairs {
+		syms = append(syms, sym)
+	}
+	sort.Slice(syms, func(i, j int) bool { return syms[i] < syms[j] })
+
+	for _, sym := range syms {
+		pair1 := (*o1.Pairs)[sym]
 		pair2, ok := (*o2.Pairs)[sym]
 		if !ok {
 			return object.BuiltInFalse
